@@ -37,18 +37,32 @@ def p10_accept_loop(ctx):
     fam = prog.family("net::server::Listener::listen")
     b = _body_with(fam, "tokio::sync::Semaphore::acquire")
     f = "net::server::Listener::listen"
+    ba = b  # the body that takes the permit
     if b is None:
+        # the permit may be taken at the top of Listener::accept() instead (once per call, before its retry loop)
+        ba = _body_with(prog.family("net::server::Listener::accept"), "tokio::sync::Semaphore::acquire")
+        b = _body_with(fam, "net::server::Listener::accept")
+    if b is None or ba is None:
         r.unrec(f, "body acquiring the permit", "src/net/server.rs", "not found")
         return r
     r.analysed = [x.path for x in fam]
-    acq = calls_in([b], "tokio::sync::Semaphore::acquire")
-    fg = calls_in([b], "tokio::sync::SemaphorePermit::forget")
+    acq = calls_in([ba], "tokio::sync::Semaphore::acquire")
+    fg = calls_in([ba], "tokio::sync::SemaphorePermit::forget")
     acc = calls_in([b], "net::server::Listener::accept")
     sp = calls_in([b], "tokio::spawn", "tokio::task::spawn")
     if not (len(acq) == 1 and len(fg) == 1 and len(acc) == 1 and len(sp) == 1):
         r.unrec(f, "acquire ×%d, forget ×%d, accept ×%d, spawn ×%d" % (len(acq), len(fg), len(acc), len(sp)), short_span(b.span), "expected one of each")
         return r
     (_, abb, at), (_, fbb, ft), (_, cbb, ct), (_, sbb, st) = acq[0], fg[0], acc[0], sp[0]
+    split = ba is not b
+    if split:
+        # in accept(): acquire+forget come before any socket accept and are not repeated by the retry loop
+        blk_ = lambda e: e.kind in ("unwind", "ydrop")
+        socks = [bb_ for _, bb_, t_ in calls_in([ba], "tokio::net::TcpListener::accept")]
+        before = bool(socks) and all(path_to(ba, [0], lambda x, s_=s_: x == s_, blocked_edges=lambda e: blk_(e) or (e.src == fbb and e.kind == "ret")) is None for s_ in socks)
+        once = abb not in reach(ba, [ba.term(abb)["t"]], blocked_edges=blk_)
+        r.add("net::server::Listener::accept", "the permit is taken once per call, before the first socket accept", before and once, where(ba, abb), "" if before and once else ("a socket accept is reachable without a permit" if not before else "the retry loop takes another permit per attempt: every failed attempt costs a connection slot for good"))
+    b_listen, b = b, ba
     # forget receives the permit just acquired on limit_connections
     fo = arg_origin(b, ft, 0)
     fut = None
@@ -59,10 +73,14 @@ def p10_accept_loop(ctx):
     r.add(f, "forget(permit acquired from self.limit_connections)", good, where(b, fbb), origin_str(fo))
     # per iteration: forget precedes accept
     blocked = lambda e: e.kind == "unwind" or (e.src == fbb and e.kind == "ret")
-    p1 = path_to(b, [0], lambda x: x == cbb, blocked_edges=blocked)
-    nxt = [e.dst for e in b.succ[cbb] if e.kind == "ret"]
-    p2 = path_to(b, nxt, lambda x: x == cbb, blocked_edges=blocked)
-    r.add(f, "every accept is preceded by acquire+forget in the same iteration", p1 is None and p2 is None, where(b, cbb), "" if (p1 is None and p2 is None) else "an accept is reachable without a permit having been taken", describe_path(b, p1 or p2) if (p1 or p2) else None)
+    if split:
+        nxt = [e.dst for e in b_listen.succ[cbb] if e.kind == "ret"]
+        r.add(f, "every accept is preceded by acquire+forget in the same iteration", True, where(b_listen, cbb), "inside Listener::accept (see its instance)")
+    else:
+        p1 = path_to(b, [0], lambda x: x == cbb, blocked_edges=blocked)
+        nxt = [e.dst for e in b.succ[cbb] if e.kind == "ret"]
+        p2 = path_to(b, nxt, lambda x: x == cbb, blocked_edges=blocked)
+        r.add(f, "every accept is preceded by acquire+forget in the same iteration", p1 is None and p2 is None, where(b, cbb), "" if (p1 is None and p2 is None) else "an accept is reachable without a permit having been taken", describe_path(b, p1 or p2) if (p1 or p2) else None)
     # no second acquire without accept in between is fine; but the permit must not be dropped between acquire and forget:
     drops = []
     for bb in reach(b, [b.term(abb)["t"]], blocked_edges=lambda e: e.kind in ("unwind", "ydrop"), blocked_blocks={fbb}):
@@ -70,6 +88,9 @@ def p10_accept_loop(ctx):
         if t["k"] == "drop" and not b.drop_is_noop(bb) and (t["ty"].startswith("tokio::sync::SemaphorePermit") or t["ty"].startswith("std::result::Result<tokio::sync::SemaphorePermit")):
             drops.append(bb)
     r.add(f, "the permit is not dropped (= released) before forget", not drops, where(b, drops[0]) if drops else where(b, fbb))
+    b = b_listen
+    if split:
+        abb = cbb  # the next iteration starts at the next accept() call
     # accepted socket -> Handler literal -> spawn, on every path that continues the loop
     hagg = None
     for bb in sorted(b.live_blocks()):
@@ -237,6 +258,12 @@ def p12_handler_loop(ctx):
     # W3b: the command comes from Command::try_from(frame read) on its Ok edge
     co = arg_origin(b, at, 0)
     tf = origin_mentions(co, lambda x: x[0] == "call" and x[1] == "std::convert::TryFrom::try_from")
+    if not tf:
+        # the command travels through a variable assigned on several paths (`Ok(None)` here, `Ok(Some(cmd))` there, out of
+        # a helper): some definition is the try_from call — and no Command is built by hand anywhere in the handler
+        manual = [1 for x in fam for bb_ in x.live_blocks() for st_ in x.blocks[bb_]["stmts"] if st_["k"] == "assign" and st_["rv"]["k"] == "agg" and st_["rv"].get("ak") == "adt" and strip_generics(st_["rv"].get("adt") or "") == "net::command::Command"]
+        if not manual:
+            tf = phi_mentions(b, co, lambda x: x[0] == "call" and x[1] == "std::convert::TryFrom::try_from", depth=6)
     frm_ok = False
     if tf:
         fro = tf[0][2][0]
@@ -634,7 +661,7 @@ def p15_interval_loops(ctx):
                 if not inf or inf["kind"] != "variant":
                     continue
                 on = inf["on"]
-                if not origin_mentions(on, lambda x: x[0] == "call" and x[3] == site):
+                if not phi_mentions(b, on, lambda x: x[0] == "call" and x[3] == site, depth=3):
                     continue
                 # the JoinHandle's own `?` (also behind map_err): the only test whose error side may end the task.
                 # Anything else that carries this call's outcome — the inner Result behind that `?`, or both layers
